@@ -11,12 +11,14 @@ sys.path.insert(0, HERE)
 def main():
     n = 0
     import vv.ref as R
+    import vv.mon as M
 
-    for m in pkgutil.iter_modules(R.__path__):
-        mod = importlib.import_module("vv.ref." + m.name)
-        if hasattr(mod, "selftest"):
-            mod.selftest()
-            n += 1
+    for pkg, name in ((R, "vv.ref."), (M, "vv.mon.")):
+        for m in pkgutil.iter_modules(pkg.__path__):
+            mod = importlib.import_module(name + m.name)
+            if hasattr(mod, "selftest"):
+                mod.selftest()
+                n += 1
     print("vv selftest ok (%d reference self-tests)" % n)
 
 
